@@ -574,7 +574,7 @@ def evict_obligations(pid, tier, seed):
 def txn_obligations(pid, tier, seed):
     obs = []
     t = 400 if tier == 'quick' else 600
-    sh, bounds = tree_shapes(tier, seed, quick_extra=(4, 2), cap=60)
+    sh, bounds = tree_shapes(tier, seed, quick_extra=(4, 2), cap=60, l3=0)
     if tier == 'quick':
         # leaves with spare room (a concurrent insert that does not split) need leaf size 3
         c32, st32 = cat('OO', 'c', 'BTree', 5, 3, 2)
